@@ -1,5 +1,5 @@
 """Graph-level cases and oracles for C11 (closed graph, look-ups), C16 (write-time validation) and C17 (enumerations)."""
-import os, shutil, re, ast, io, copy
+import os, shutil, re, ast, io, copy, random
 import pandas as pd
 import vlib, docs, nsgen, parsecmp, parseprops, uaconv, c08
 from vlib import Sym
@@ -44,6 +44,10 @@ def run_c11(ctx):
     try:
         for ci in range(30 if ctx.quick() else 500):
             g = nsgen.gen_graph(rng, n_ns=rng.randint(1, 3), n_nodes=rng.randint(2, 7), hostile=False, with_values=False, dangling=False)
+            own = [k for k in g.order if k[0] != UA]
+            if len(own) >= 2 and rng.random() < 0.5:        # one browse name carried by nodes of two classes
+                a_, b_ = rng.sample(own, 2)
+                if g.nodes[a_]["cls"] != g.nodes[b_]["cls"]: g.nodes[b_]["bname"] = (g.nodes[b_]["bname"][0], g.nodes[a_]["bname"][1])
             ds = nsgen.serialise(g, rng, aliases=rng.random() < 0.5)
             variants = [("closed", ds)]
             # remove a defining file / a defining node / keep everything but add a dangling reference
@@ -87,8 +91,19 @@ def run_c11(ctx):
                 if G is not None:
                     gn2 = [[int(r["id"]), r["NodeClass"], r["BrowseName"], r["DisplayName"], [], []] for _, r in G.nodes.iterrows()]
                     names = sorted(set(n[2] for n in gn2))
+                    # the first and the last node of the table (ids 0 and max), untyped and by their own class, then a typed look-up followed by
+                    # the untyped look-up of the same name (an answer must not depend on earlier look-ups), then random ones
+                    plan = []
+                    for row in (gn2[0], gn2[-1]):
+                        c0 = row[1][2:] if row[1][2:] in ("Object", "Variable", "DataType", "ReferenceType", "ObjectType", "VariableType") else None
+                        plan += [(row[2], None), (row[2], c0)]
+                    shared = sorted(set(n[2] for n in gn2 if len(set(m[1] for m in gn2 if m[2] == n[2])) > 1))
+                    for nm_ in shared[:2]:
+                        c1 = sorted(set(m[1][2:] for m in gn2 if m[2] == nm_ and m[1][2:] in ("Object", "DataType", "ReferenceType", "ObjectType", "VariableType")))
+                        if c1: plan += [(nm_, c1[0]), (nm_, None)]
                     for _ in range(6):
-                        nm = rng.choice(names + ["Absent", "", "Dup"]); cls = rng.choice([None, "Object", "Variable", "DataType", "ReferenceType", "ObjectType", "VariableType"])
+                        plan.append((rng.choice(names + ["Absent", "", "Dup"]), rng.choice([None, "Object", "Variable", "DataType", "ReferenceType", "ObjectType", "VariableType"])))
+                    for nm, cls in plan:
                         try:
                             f = {None: lambda: G.nodeid_by_browsename(nm), "Object": lambda: G.object_by_browsename(nm), "DataType": lambda: G.data_type_by_browsename(nm),
                                  "ReferenceType": lambda: G.reference_type_by_browsename(nm), "ObjectType": lambda: G.object_type_by_browsename(nm),
@@ -136,7 +151,10 @@ def run_c17(ctx):
     try:
         for ci in range(35 if ctx.quick() else 600):
             g = nsgen.gen_graph(rng, n_ns=1, n_nodes=rng.randint(1, 3), hostile=False, with_values=True, dangling=False, value_gen=parseprops.value_gen)
-            desc = nsgen.add_enums(g, rng)
+            # the first cases are fixed shapes: EnumStrings with a reserved position and variables on both sides of it; EnumValues; two types
+            if ci < 4: desc = nsgen.add_enums(g, rng, n_types=1, flavours=["strings"], n_vars=3, kinds=["in", "in", "in"], placeholder=True)
+            elif ci < 6: desc = nsgen.add_enums(g, rng, n_types=2, flavours=["values", "strings"], n_vars=3, kinds=["in", "in", "out" if ci == 5 else "in"])
+            else: desc = nsgen.add_enums(g, rng)
             ds = nsgen.serialise(g, rng, value_xml=parseprops.value_xml, aliases=rng.random() < 0.5)
             files = [(n, docs.render(d, rng)) for n, d, _ in ds]
             paths = write_files(work, files)
@@ -289,6 +307,7 @@ def c16_oracle(G, uri, work):
         if name not in simple and dt_builtin: causes.add("structure-value-vs-builtin-type")
         if name in simple and dt_builtin and dtrow["BrowseName"] != name: offenders.append(r["DisplayName"])
     want = ["accepted"] if not offenders else ["rejected", sorted(offenders)]
+    if list(G.nodes.index) != [int(i) for i in G.nodes["id"]]: causes.add("row-labels-as-ids")
     sig = None
     if impl[0] == "other-error":
         if impl[1] == "KeyError" and "DataType" in impl[2] and not has_col: causes.add("no-datatype-column")
@@ -314,11 +333,28 @@ def c16_replay(case):
              "nodeid": ([(T.UANodeId(1, "i", "5"), "NodeId")], 1),
              "structure": ([(T.UAEURange(0.0, 1.0), "Double")], 1),
              "no-column": ([(T.UAInt32(1), None)], 1)}
+    if case.get("kind") == "relabelled":
+        # an Int32 value declared String, in a graph whose node table carries other row labels than ids
+        try:
+            import writeprops
+            g = nsgen.gen_graph(rng, n_ns=1, n_nodes=0, hostile=False, with_values=False, dangling=False)
+            nsgen.add_typed_variables(g, rng, spec=[(T.UAInt32(1), "String")], n_custom=1)
+            ds = nsgen.serialise(g, rng, value_xml=parseprops.value_xml, aliases=False)
+            paths = write_files(work, [(n, docs.render(d, rng)) for n, d, _ in ds])
+            st, G = build(paths)
+            if G is None: return [("C16/other-error", "graph could not be built: %r" % (st,))]
+            _, G = writeprops.graph_variant(G, random.Random(1), kinds=["relabelled"])
+            return c16_oracle(G, g.uris[0], work)[4]
+        finally:
+            shutil.rmtree(work, ignore_errors=True)
     if case.get("kind") == "docset":
         try:
             paths = write_files(work, [tuple(f) for f in case["files"]])
             st, G = build(paths)
             if G is None: return [("C16/other-error", "graph could not be built: %r" % (st,))]
+            if "vseed" in case:
+                import writeprops
+                _, G = writeprops.graph_variant(G, random.Random(case["vseed"]), kinds=["as-parsed", "as-parsed", "permuted", "relabelled"])
             return c16_oracle(G, case["uri"], work)[4]
         finally:
             shutil.rmtree(work, ignore_errors=True)
@@ -355,15 +391,27 @@ def run_c16(ctx):
             g = nsgen.gen_graph(rng, n_ns=1, n_nodes=rng.randint(0, 2), hostile=False, with_values=False, dangling=False)
             if ci < len(sweep): vars_ = nsgen.add_typed_variables(g, rng, spec=sweep[ci], n_custom=1)
             else: vars_ = nsgen.add_typed_variables(g, rng, make_value=c16_value)
-            ds = nsgen.serialise(g, rng, value_xml=parseprops.value_xml, aliases=rng.random() < 0.5)
+            # every third graph also holds a namespace the written one does not use, in a file that is parsed BEFORE the base nodeset
+            fnames = None
+            if ci % 3 == 1:
+                aux = "urn:aux:unused"; g.uris.append(aux)
+                ak = (aux, "i", "1"); g.nodes[ak] = dict(cls="UAObject", bname=(aux, "AuxObject"), display="AuxObject", desc=None, attrs={}, value=None); g.order.append(ak)
+                g.refs.append(((UA, "i", "85"), ak, (UA, "i", "35")))
+                g.models[aux] = dict(version="1.0.0", pubdate=None, required=[dict(uri=UA, version="1.04", pubdate=None)])
+                fnames = {aux: "Aux.first.xml"}
+            ds = nsgen.serialise(g, rng, value_xml=parseprops.value_xml, aliases=rng.random() < 0.5, file_names=fnames)
             files = [(n, docs.render(d, rng)) for n, d, _ in ds]
             paths = write_files(work, files)
             st, G = build(paths)
             if G is None: continue
+            # the same graph held differently (row order, row labels): UAGraph takes any tables
+            import writeprops
+            vseed = rng.randrange(2 ** 31)
+            variant, G = writeprops.graph_variant(G, random.Random(vseed), kinds=["as-parsed", "as-parsed", "permuted", "relabelled"])
             impl, gn, dtn, has_col, fails, offenders = c16_oracle(G, g.uris[0], work)
             reqs.append([Sym("c16_validate"), gn, dtn, has_col]); meta.append((ci, impl))
             ctx.record(dict(case=ci, vars=[(str(k[2]), type(d["value"]).__name__, d["datatype"] and d["datatype"][2]) for k, d in vars_.items()]), bool(offenders), ["offenders=%d" % min(len(offenders), 3)])
-            for sig, detail in fails: ctx.fail(sig, dict(kind="docset", files=files, uri=g.uris[0]), detail)
+            for sig, detail in fails: ctx.fail(sig, dict(kind="docset", files=files, uri=g.uris[0], vseed=vseed), detail)
     finally:
         shutil.rmtree(work, ignore_errors=True)
     ans = vlib.run_model(reqs, shards=8)
